@@ -159,6 +159,36 @@ def gen_tokens(ctx, n):
     return ops
 
 
+# ---- round 5: every genuine token kind x every credential slot x every registered route
+TOKEN_KINDS = ["cookie", "cookie_admin", "cli", "storage", "code", "code_aud", "access", "access_aud", "id"]
+TOKEN_SLOTS = ["cookie", "bearer", "form"]
+# union of the claim names of the token structs (a name a kind does not carry is skipped by the harness: n=0)
+TOKEN_CLAIMS = ["iss", "sub", "aud", "exp", "nbf", "iat", "token_type", "auth_type", "type", "username", "scope", "jti", "auth_level",
+                "auth_exp", "redirect_uri", "protected_data_key", "protected_data", "nonce", "data_type", "data", "access_audience", "auth_time"]
+# controls: a non-token in every slot, and the user's own valid session; a route that panics with those is not this stream's subject
+TOKEN_CONTROLS = ["tokslot control - cookie", "tokslot control - bearer", "tokslot control - form", "tokslot cookie genuine cookie"]
+
+
+def gen_tokslots(ctx):
+    """genuine tokens of every kind in every slot; then the one-claim variants (claim dropped / emptied / numeric claim at an
+    extreme), re-signed by the daemon's signer. Quick: the near-duplicate kinds (second session, code with an audience) only
+    genuine, extremes not in the bearer slot."""
+    ops = []
+    for k in TOKEN_KINDS:
+        for sl in TOKEN_SLOTS:
+            ops.append("tokslot %s genuine %s" % (k, sl))
+    for k in TOKEN_KINDS:
+        if ctx.quick() and k in ("cookie_admin", "code_aud"):
+            continue
+        for cl in TOKEN_CLAIMS:
+            for how in ("drop", "empty", "lo", "hi"):
+                for sl in TOKEN_SLOTS:
+                    if ctx.quick() and sl == "bearer" and how in ("lo", "hi"):
+                        continue
+                    ops.append("tokslot %s %s:%s %s" % (k, how, cl, sl))
+    return ops
+
+
 def run(ctx):
     facts = c.regen(ctx)
     c.prove(ctx)
@@ -166,7 +196,7 @@ def run(ctx):
     f10 = facts.get("c10", {})
     keys = gen_keys(ctx, 1400 if quick else 12000)
     toks = gen_tokens(ctx, 360 if quick else 6000)
-    want_h = want_x = None
+    want_h = want_x = want_k = None
     if ctx.replay:
         rp = json.load(open(ctx.replay))
         want = list(dict.fromkeys(v["replay"]["op"] for v in rp.get("violations", []) if "op" in v.get("replay", {})))
@@ -176,6 +206,7 @@ def run(ctx):
             toks = [(w.split()[1], w.split()[2], c.unhexs(w.split()[3])) for w in want if w.startswith("tok ")]
             want_h = wh
             want_x = [w for w in want if w.startswith("extall ")]
+            want_k = [w for w in want if w.startswith("tokslot ")]
     ops = ["sshre " + c.hexs(f10.get("ssh_regex", "^$"))]
     ops += ["key %s %s %s" % k for k in keys]
     ops += ["tok %s %s %s" % (t[0], t[1], c.hexs(t[2])) for t in toks]
@@ -191,6 +222,10 @@ def run(ctx):
         xops += want_x
     n_head = len(ops)
     ops += xops
+    # every genuine token kind the daemon mints (and its one-claim variants) in every credential slot of every route
+    kops = TOKEN_CONTROLS + (gen_tokslots(ctx) if want_k is None else want_k)
+    n_kinds = len(ops)
+    ops += kops
     # the same paths on a state the real loader built from a configuration file; when the tree accepts configuration keys
     # the pinned list does not know, every such option is switched on first (string options name a program that prints a
     # weak key)
@@ -284,7 +319,7 @@ def run(ctx):
                             "token parser target %s (%s) panicked: %s; token/payload %r" % (t[0], t[1], c.unhexs(f.get("panic", "-")), t[2][:300]),
                             {"op": op, "impl": out})
     # ---- malformed address extensions through every registered route
-    ximpl = impl[n_head:n_cfg]
+    ximpl = impl[n_head:n_kinds]
     control_routes = set()
     ext_requests = ext_route_panics = 0
     for op, out in zip(xops, ximpl):
@@ -306,6 +341,53 @@ def run(ctx):
                     len(routes), sorted(routes)[0], c.unhexs(first[2])), {"op": op, "impl": out[:600]})
     hist["ext_all_routes"] = {"certificates": len(xops) - 2, "requests": ext_requests, "certificates_with_panics": ext_route_panics,
                               "routes_panicking_with_control_certificate": sorted(control_routes)}
+    # ---- genuine tokens of every kind in every credential slot of every registered route; judged by the driver (`jtok`: the
+    # property's predicate on one answer — any status is an answer, a recovered panic is not)
+    kimpl = impl[n_kinds:n_cfg]
+    k_control_routes = set()
+    k_requests = k_presented = k_panics = 0
+    kj, kjmeta = [], []
+    for op, out in zip(kops, kimpl):
+        if not out.startswith("n="):
+            ctx.broken.append("harness could not run %r: %s" % (op, out))
+            continue
+        f = c11.kv(out)
+        if f["n"] == "0":
+            continue                       # this kind does not carry that claim
+        k_requests += int(f["n"])
+        routes = set(f["routes"].split(";")) if "routes" in f else set()
+        kind, variant, slot = op.split()[1:4]
+        if op in TOKEN_CONTROLS:
+            k_control_routes |= routes
+            if op != TOKEN_CONTROLS[-1]:
+                continue
+        k_presented += 1
+        bump(hist.setdefault("token_kind_slot", {}), "%s:%s:%s" % (kind, variant.split(":")[0], slot))
+        for sc in f["st"].split(","):
+            st = sc.split(":")[0]
+            d = hist.setdefault("token_kind_status_requests", {})
+            d["%s:%s" % (slot, st)] = d.get("%s:%s" % (slot, st), 0) + int(sc.split(":")[1])
+            if st == "PANIC" and not (routes - k_control_routes):
+                continue
+            kj.append("jtok " + st)
+            kjmeta.append((op, out, routes))
+    for (op, out, routes), j, v in zip(kjmeta, kj, drv(ctx, "judge", kj) if kj else []):
+        if v == "ok":
+            continue
+        if v == "bad-op":
+            ctx.broken.append("judge could not read %r (from %r)" % (j, op))
+            continue
+        k_panics += 1
+        if k_panics <= 5:
+            f = c11.kv(out)
+            first = f["first"].split("|")
+            left = sorted(routes - k_control_routes)
+            c.add_violation(ctx, "panic:" + op.replace(" ", ":"),
+                            "a validly signed keymaster token (kind %s, %s) presented in the %s slot made %d route/method pairs panic, e.g. %s: %s" % (
+                                op.split()[1], op.split()[2], op.split()[3], len(left), left[0], c.unhexs(first[2])),
+                            {"op": op, "impl": out[:600], "judge_op": j, "judge": v})
+    hist["token_kinds_all_routes"] = {"tokens_presented": k_presented, "requests": k_requests, "tokens_with_panics": k_panics,
+                                      "routes_panicking_with_control": sorted(k_control_routes)}
     # ---- address extensions of client certificates through checkAuth (handlers of C11's harness: refresh + certgen, both chains)
     hnd = [o for o in c11.gen_handler(ctx, 900 if quick else 6000) if o[0] == "raw"]
     hops = [c11.handler_line(o) for o in hnd] if want_h is None else want_h
@@ -320,8 +402,8 @@ def run(ctx):
                 if ext_panics <= 3:
                     c.add_violation(ctx, "panic:" + line, "handler panicked on a client certificate's address extension", {"handler_op": line, "impl": out})
     ctx.coverage.update({
-        "evaluations": len(keys) + len(cfgkeys) + len(toks) + 2 * len(hops) + ext_requests,
-        "key_submissions": len(keys) + len(cfgkeys), "token_submissions": len(toks), "address_extension_requests": 2 * len(hops) + ext_requests,
+        "evaluations": len(keys) + len(cfgkeys) + len(toks) + 2 * len(hops) + ext_requests + k_requests,
+        "key_submissions": len(keys) + len(cfgkeys), "token_submissions": len(toks), "token_kind_slot_requests": k_requests, "address_extension_requests": 2 * len(hops) + ext_requests,
         "distinct_nontrivial": len(nontrivial),
         "rule": "non-trivial = distinct (path, parsed key description, regexp verdict) triples that reached the strength test "
                 "(certificate issued or a parsable key refused); token and address-extension streams are supporting evidence only "
